@@ -16,6 +16,10 @@ pub fn run<S: InterpreterTrait>(interpreter: &mut S) -> Result<(), RuntimeError>
         )?,
         None => do_instr(1, a.to_str_unchecked(), b.to_str_unchecked())?,
     };
+    // the result is an INTEGER
+    if result > rusty_bit_vec::MAX_INTEGER {
+        return Err(RuntimeError::Overflow);
+    }
     interpreter
         .context_mut()
         .set_built_in_function_result(BuiltInFunction::InStr, result);
